@@ -98,6 +98,8 @@ def cases(tier, seed):
     for seq in (["neg_point", "pos_ext"], ["neg_ext", "blend_nn"], ["blend_pp", "mixed"], ["tiny", "neg_point"], ["faint", "neg_ext"]):
         for noise in ("none", "real0"):
             yield "islandrows", dict(seq=seq, noise=noise, rms="files", docov=False)
+    for amp, spike, off in itertools.product((40.0, 25.0), (12.0, 8.0), ((0, 1), (1, 1), (1, 0))):
+        yield "spike", dict(amp=amp, spike=spike, offset=list(off))
     # sources of opposite sign close enough to share ONE island (islands are found on |signal-to-noise|)
     for sep in (3.0, 4.0, 5.0, 6.0):
         for neg_peak in (-0.8, -1.25):
@@ -418,6 +420,50 @@ def ev_mixed_island(case, ctx):
                       "(the negative half of a mixed-sign island is never catalogued)" % (sep, brief(P), brief(N)), "mixed_sign_island|" + sig)
 
 
+def ev_spike(case, ctx):
+    """a bright source with ONE pixel of the opposite sign next to its peak (a bad pixel, an undersampled +- pair): an extremum of
+    each sign, 8-adjacent.  run(I) and run(-I) must be mirror images (count, positions to 0.05 px, fluxes to 1 %)"""
+    d = os.environ["VERIF_SCRATCH"]
+    hdr = header()
+    amp, spike = case["amp"], case["spike"]
+    dr, dc = case["offset"]
+    img = skygauss.render(hdr, SHAPE, [skygauss.source_at_pixel(hdr, 60.0, 60.0, amp * SIGMA, 4.0, 3.0, 20.0),
+                                       skygauss.source_at_pixel(hdr, 30.0, 90.0, 8 * SIGMA, 4.0, 3.0, 20.0)])
+    img[60 + dr, 60 + dc] = -spike * SIGMA
+    img = np.round(img * Q) / Q
+    sig = "spike:amp=%g,spike=-%g,offset=(%d,%d)" % (amp, spike, dr, dc)
+    res = {}
+    f = os.path.join(d, "c13_spike.fits")
+    for sign in (1.0, -1.0):
+        scenes.write_image(f, hdr, sign * img)
+        try:
+            res[sign] = run(f, dict(rms=SIGMA, bkg=0.0), False, False, False)
+        except Exception as e:
+            ctx.violation("finder raised %r on a source with an opposite-sign pixel next to its peak (%s)" % (e, sig), "raise_spike|" + sig)
+            return
+        finally:
+            if os.path.exists(f):
+                os.remove(f)
+    ctx.count("spike")
+    ctx.nontrivial(sig)
+    P, N = res[1.0], res[-1.0]
+    ctx.outcome("spike:%d/%d" % (len(P), len(N)))
+    ok = len(P) == len(N)
+    if ok:
+        cd = abs(hdr["CDELT2"])
+        left = list(N)
+        for a in P:
+            m = [b for b in left if np.hypot((a["ra"] - b["ra"]) * np.cos(np.radians(a["dec"])), a["dec"] - b["dec"]) <= 0.05 * cd
+                 and abs(a["peak_flux"] + b["peak_flux"]) <= 0.01 * abs(a["peak_flux"])]
+            if not m:
+                ok = False
+                break
+            left.remove(m[0])
+    if not ok:
+        ctx.violation("a +%g sigma source with a -%g sigma pixel next to its peak: run(I) gives %s but run(-I) gives %s - not mirror images" % (
+            amp, spike, brief(P), brief(N)), "spike|" + sig)
+
+
 def ev_faint_companion(case, ctx):
     """amplitude limits must be mirror images too: a companion of 4.0-4.8 sigma whose brightest pixel passes the seed level only
     thanks to the wing of its bright neighbour"""
@@ -456,6 +502,8 @@ def ev_faint_companion(case, ctx):
 def evaluate(clause, case, ctx):
     if clause == "islandrows":
         return ev_islandrows(case, ctx)
+    if clause == "spike":
+        return ev_spike(case, ctx)
     if clause == "mixed_island":
         return ev_mixed_island(case, ctx)
     if clause == "faint_companion":
